@@ -6,7 +6,7 @@ ALL = "IO II IF IU UO UU UF UI LO LL LF LQ QO QQ QF QL OO OI OU OL OQ fs".split(
 def run(ctx):
     fams = QUICK if ctx.tier == "quick" else ALL
     ctx.cvc(fams, ["T-PIN"])
-    ctx.standin("evict_rt", families=("OO", "II"))
+    ctx.standin("evict_rt", families=("OO", "II") if ctx.tier == "quick" else ("OO", "II", "LF", "QQ", "fs"))
     return "proof", (
         "T-PIN: for every function definition of the translation units (%s), on every exit, "
         "normal or error: forall o: state'[o]==STICKY ==> state[o]==STICKY over the real ->state "
